@@ -675,7 +675,20 @@ def translate(src) -> dict:
     out.append(measure_list(pop, "MeanPopRank", "pop_measure_list",
                             {"self.item_ranks": ("self_item_ranks", "Ser")}, "(self_item_ranks : gseries) "))
     out.append(pop_init(pop))
+    out.append(default_discount_table())
     return {"Gen/C06_metrics.v": "\n".join(out)}
+
+
+def default_discount_table(n=256) -> str:
+    """The default discount (checked above to be np.log2) as NumPy evaluates it at ranks 1..n: exact
+    rational values of the float64 results.  Used to show that the shipped discount satisfies the
+    monotonicity hypothesis of the consequence theorems."""
+    import numpy as np
+
+    vals = np.log2(np.arange(1, n + 1))
+    items = "; ".join(qlit(float(v)) for v in vals)
+    return ("(* float64 values of np.log2(1..%d), the default discount of DCG and NDCG *)\n"
+            "Definition log2_table : list Q := [%s].\n" % (n, items))
 
 
 def pop_init(tree) -> str:
